@@ -348,7 +348,7 @@ Proof.
 Qed.
 
 Lemma check_initial_safe : good D -> forall bs,
-  ci_res (check_initial maxbuf cfg D bs) <> CiPanic /\ ci_res (check_initial maxbuf cfg D bs) <> CiHang.
+  ci_res (check_initial maxbuf cfg fl D bs) <> CiPanic /\ ci_res (check_initial maxbuf cfg fl D bs) <> CiHang.
 Proof.
   intros G bs. unfold check_initial.
   destruct (read_header bs) as [h rest| | |]; try (cbn; split; discriminate).
@@ -361,7 +361,7 @@ Proof.
   - cbn; split; discriminate.
 Qed.
 
-Lemma check_initial_alloc : forall bs, ci_alloc (check_initial maxbuf cfg D bs) <= HeaderSz + maxbuf.
+Lemma check_initial_alloc : forall bs, ci_alloc (check_initial maxbuf cfg fl D bs) <= HeaderSz + maxbuf.
 Proof.
   intros bs. unfold check_initial, HeaderSz.
   destruct (read_header bs) as [h rest| | |]; try (cbn [ci_alloc]; lia).
@@ -387,7 +387,7 @@ Lemma session_transfer :
      (s_end (sess negotiate ver env bs) = SeHang /\ ci_res (s_init (sess negotiate ver env bs)) = CiHang)))).
 Proof.
   intros P R I E HR HI HE negotiate ver env bs HP Hinit. unfold session.
-  destruct (ci_res (check_initial maxbuf cfg D bs)) as [rest| | |] eqn:Hci.
+  destruct (ci_res (check_initial maxbuf cfg fl D bs)) as [rest| | |] eqn:Hci.
   - pose proof (session_loop_inv maxbuf cfg fl D neg_timeout P R I E HR HI HE
                   (S (length rest)) (init_ss negotiate ver) env O rest HP Hinit ltac:(lia)) as [H1 H2].
     destruct (session_loop maxbuf cfg fl D neg_timeout (S (length rest)) (init_ss negotiate ver) env 0 rest) as [l e].
@@ -408,7 +408,7 @@ Proof.
   intros G Hg negotiate ver env bs r.
   assert (Hci : ci_res (s_init r) <> CiPanic /\ ci_res (s_init r) <> CiHang).
   { subst r. unfold session. pose proof (check_initial_safe G bs) as Hs.
-    destruct (ci_res (check_initial maxbuf cfg D bs)) eqn:E; try destruct (session_loop _ _ _ _ _ _ _ _ _ _);
+    destruct (ci_res (check_initial maxbuf cfg fl D bs)) eqn:E; try destruct (session_loop _ _ _ _ _ _ _ _ _ _);
       cbn [s_init]; rewrite E; assumption. }
   pose proof (session_transfer (fun _ => True) (fun x => co_safe (sr_cons x)) (fun _ => True)
                 (fun e => e <> SePanic /\ e <> SeHang)) as T.
@@ -438,7 +438,7 @@ Theorem session_alloc_bounded : gsv_uses_checked_read fl = true ->
 Proof.
   intros Hg negotiate ver env bs r. split.
   - subst r. unfold session.
-    destruct (ci_res (check_initial maxbuf cfg D bs)); try destruct (session_loop _ _ _ _ _ _ _ _ _ _);
+    destruct (ci_res (check_initial maxbuf cfg fl D bs)); try destruct (session_loop _ _ _ _ _ _ _ _ _ _);
       cbn [s_init]; apply check_initial_alloc.
   - pose proof (session_transfer (fun _ => True) (fun x => sr_alloc x <= HeaderSz + maxbuf) (fun _ => True) (fun _ => True)) as T.
     specialize (T ltac:(intros ss e bs0 x Hx; apply step_emits_spec in Hx;
